@@ -133,6 +133,9 @@ def next_mode_restore(F, stmt):
 def run(ctx, R):
     F = ctx.facts()
     R.rule("RF1 liveness clones; RF3 tick after mutation; RF4 stamp sources; RF2/RF3 cc save/restore order in the dynamic handlers")
+    # the saved position inside a first-argument choice sequence advances from the entry executed (dead clauses skipped)
+    from . import orframe
+    orframe.inner_index_advance(F, R, "C09")
 
     # ---- R1: liveness predicate clones, crate-wide --------------------------------------------------------
     n_sites = 0
